@@ -5,7 +5,9 @@ pub mod engine_adp;
 pub mod engine_obs;
 pub mod engine_thr;
 pub mod engine_vec;
+pub mod noise;
 pub mod runners_adp;
+pub mod runners_long;
 pub mod runners_misc;
 pub mod runners_obs;
 pub mod runners_pairs;
